@@ -68,12 +68,17 @@ Proof.
 Qed.
 
 (** a block with a result: reached by fall-through (constant 22) or by a [br 1] carrying 11 out of a
-    nested [if]; the result is consumed by [local.set 1]; a second value block nested in a loop body *)
+    nested [if]; the result is consumed by [local.set 1]; an if-else with a result; a second value block
+    nested in a loop body *)
 Definition val_body : list instr :=
   [ Block (Some T_i32)
       [ Basic (BLocalGet 0);
         If None [ Basic (BConst T_i32 11); Basic (BBr 1) ] [];
         Basic (BConst T_i32 22) ];
+    Basic (BLocalSet 1);
+    Basic (BLocalGet 0);
+    If (Some T_i32) [ Basic (BLocalGet 1); Basic (BConst T_i32 1); Basic (BBinop T_i32 Add) ]
+                    [ Basic (BLocalGet 1); Basic (BConst T_i32 2); Basic (BBinop T_i32 Add) ];
     Basic (BLocalSet 1);
     Block None
       [ Loop None
@@ -90,10 +95,56 @@ Lemma ex_val :
        /\ c_next sF < 2147483648 /\ Z.of_nat (length (c_consts sF)) < 2147483648
        /\ Z.of_nat (length (c_out sF ++ [IReturn])) < 4294967296)
   /\ (forall host cap m st,
-        exec_instr host cap m 200 st [VI32 3; VI32 0] [] (Block None val_body) = RNormal st [VI32 0; VI32 17] []
-        /\ exec_instr host cap m 200 st [VI32 0; VI32 5] [] (Block None val_body) = RNormal st [VI32 0; VI32 22] []).
+        exec_instr host cap m 200 st [VI32 3; VI32 0] [] (Block None val_body) = RNormal st [VI32 0; VI32 18] []
+        /\ exec_instr host cap m 200 st [VI32 0; VI32 5] [] (Block None val_body) = RNormal st [VI32 0; VI32 24] []).
 Proof.
   split; [vm_compute; reflexivity|]. split.
   - eexists _, _. split; [vm_compute; reflexivity|]. vm_compute. repeat split; congruence.
   - intros host cap m st. repeat split; vm_compute; reflexivity.
+Qed.
+
+(** a function with a result: the value reaches the final [end] by a [br 1] to the function's own label
+    (carrying 7 out of an [if]) or by fall-through (local 1 + 1); a [return] with the value 42 *)
+Definition fn_cx : cctx := {| cx_func_type := fun _ => None; cx_type := fun _ => None; cx_return := Some T_i32 |}.
+Definition fn_body : list instr :=
+  [ Basic (BLocalGet 0);
+    If None [ Basic (BConst T_i32 7); Basic (BBr 1) ] [];
+    Basic (BLocalGet 1); Basic (BConst T_i32 9); Basic (BRelop T_i32 Eq);
+    If None [ Basic (BConst T_i32 42); Basic BReturn ] [];
+    Basic (BLocalGet 1); Basic (BConst T_i32 1); Basic (BBinop T_i32 Add) ].
+
+Lemma ex_fn :
+  blocks_ok_r 2 fn_cx T_i32 fn_body = true
+  /\ (exists v' sF, compile_ops fn_cx (flatten_body fn_body) (init_vstate (Some T_i32)) (init_fstate_r 2) = Some (v', sF)
+       /\ c_bp sF = [] /\ c_stack sF = [PLocal 0]
+       /\ c_next sF < 2147483648 /\ Z.of_nat (length (c_consts sF)) < 2147483648
+       /\ Z.of_nat (length (c_out sF ++ [IReturn])) < 4294967296)
+  /\ (forall host cap m st,
+        exec_instr host cap m 50 st [VI32 1; VI32 5] [] (Block (Some T_i32) fn_body) = RNormal st [VI32 1; VI32 5] [VI32 7]
+        /\ exec_instr host cap m 50 st [VI32 0; VI32 5] [] (Block (Some T_i32) fn_body) = RNormal st [VI32 0; VI32 5] [VI32 6]
+        /\ exec_instr host cap m 50 st [VI32 0; VI32 9] [] (Block (Some T_i32) fn_body) = RReturn st [VI32 42]).
+Proof.
+  split; [vm_compute; reflexivity|]. split.
+  - eexists _, _. split; [vm_compute; reflexivity|]. vm_compute. repeat split; congruence.
+  - intros host cap m st. repeat split; vm_compute; reflexivity.
+Qed.
+
+(** bodies that end with a jump: a value-typed block whose body ends with a [br] carrying the value, and a
+    function body that ends with [return] (the final [end] is compiled as unreachable) *)
+Definition fn_body2 : list instr :=
+  [ Block (Some T_i32) [ Basic (BLocalGet 0); Basic (BBr 0) ];
+    Basic (BLocalGet 1); Basic (BBinop T_i32 Add); Basic BReturn ].
+
+Lemma ex_fn2 :
+  blocks_ok_r 2 fn_cx T_i32 fn_body2 = true
+  /\ (exists v' sF, compile_ops fn_cx (flatten_body fn_body2) (init_vstate (Some T_i32)) (init_fstate_r 2) = Some (v', sF)
+       /\ c_bp sF = []
+       /\ c_next sF < 2147483648 /\ Z.of_nat (length (c_consts sF)) < 2147483648
+       /\ Z.of_nat (length (c_out sF ++ [IReturn])) < 4294967296)
+  /\ (forall host cap m st,
+        exec_instr host cap m 50 st [VI32 3; VI32 4] [] (Block (Some T_i32) fn_body2) = RReturn st [VI32 7]).
+Proof.
+  split; [vm_compute; reflexivity|]. split.
+  - eexists _, _. split; [vm_compute; reflexivity|]. vm_compute. repeat split; congruence.
+  - intros host cap m st. vm_compute. reflexivity.
 Qed.
